@@ -63,6 +63,14 @@ func (f *fakeS3) Do(req *http.Request) (*http.Response, error) {
 	if hook != nil {
 		hook(n)
 	}
+	if outcome == "stall" {
+		// the endpoint accepts the request and never answers: only the caller's own time limit ends it
+		<-req.Context().Done()
+		f.mu.Lock()
+		f.ups[n-1].ok = false
+		f.mu.Unlock()
+		return nil, req.Context().Err()
+	}
 	if lat > 0 {
 		select {
 		case <-time.After(lat):
@@ -144,9 +152,9 @@ func traceBackup(t *testing.T, o opts) {
 		}
 		var script []string
 		for i := 0; i < r.Intn(5); i++ {
-			script = append(script, pick(r, []string{"ok", "ok", "fail"}))
+			script = append(script, pick(r, []string{"ok", "ok", "ok", "fail", "fail", "stall"}))
 		}
-		latency := pick(r, []int64{0, 0, 250, 5003})
+		latency := pick(r, []int64{0, 0, 250, 5003, 90011})
 		race := -1
 		if r.Intn(3) == 0 {
 			race = 1 + r.Intn(3)
